@@ -190,42 +190,79 @@ Theorem C07_initial_state_invariant : forall d q k votes n s,
   exists pseats, HighestAverages.evaluate d (party_totals votes) n [] [] = HA_ok pseats None /\ BInv q votes pseats s.
 Proof. intros d q k votes n s Hq0 Hq1 Hk Hd Hwf Hv Hs Hn. exact (binit_inv d q k Hq0 Hq1 Hk Hd votes Hwf Hv Hs n Hn s). Qed.
 
-(* 4. the whole evaluate, district seats given (a dictionary, or whatever a custom apportioner returned) *)
+(* 4. the whole evaluate, district seats given (a dictionary, or whatever a custom apportioner returned).  The code as it
+      stands ([strict] = true: an election without a single vote is refused, fixes/C07-all-zero.diff) needs no hypothesis
+      about positive votes any more *)
 Theorem C07_evaluate_partial_correct : forall d q k votes n tgt dorder fuel res rho gamma,
   (0 <= q)%Q -> (q < 1)%Q -> (0 < k)%Q -> (forall z, d z == k * (inject_Z z + 1 - q))%Q ->
-  wf_votes votes -> (forall i j, 0 <= mget votes i j) -> (exists i j, 0 < mget votes i j) -> 0 <= n ->
+  wf_votes votes -> (forall i j, 0 <= mget votes i j) -> 0 <= n ->
   incl (districts votes) dorder ->
-  evaluate_core d q votes tgt dorder n fuel = BP_ok res rho gamma ->
+  evaluate_core d q votes tgt dorder true n fuel = BP_ok res rho gamma ->
   exists pseats, ha_marginal d (party_totals votes) n = Some pseats /\
     cert_ok d (districts votes) (parties votes) votes tgt pseats res (scale_k k rho) gamma = true /\
     biprop_spec d (districts votes) (parties votes) votes tgt pseats res.
 Proof.
-  intros d q k votes n tgt dorder fuel res rho gamma Hq0 Hq1 Hk Hd Hwf Hv Hs Hn Hdo H.
-  destruct (evaluate_core_partial d q k Hq0 Hq1 Hk Hd votes Hwf Hv Hs n Hn dorder Hdo tgt fuel res rho gamma H) as (pseats & Hp & Hc).
+  intros d q k votes n tgt dorder fuel res rho gamma Hq0 Hq1 Hk Hd Hwf Hv Hn Hdo H.
+  destruct (evaluate_core_partial d q k Hq0 Hq1 Hk Hd votes Hwf Hv n Hn dorder Hdo true tgt fuel res rho gamma (or_introl eq_refl) H) as (pseats & Hp & Hc).
   exists pseats. split; [exact Hp|]. split; [exact Hc|]. exact (proj2 (C07_cert_sound _ _ _ _ _ _ _ _ _ Hc)).
 Qed.
 
 (* 5. ... and seats given as a total: the districts are apportioned by the same HighestAverages model *)
 Theorem C07_evaluate_total_partial_correct : forall d q k votes n dorder fuel res rho gamma,
   (0 <= q)%Q -> (q < 1)%Q -> (0 < k)%Q -> (forall z, d z == k * (inject_Z z + 1 - q))%Q ->
-  wf_votes votes -> (forall i j, 0 <= mget votes i j) -> (exists i j, 0 < mget votes i j) -> 0 <= n ->
+  wf_votes votes -> (forall i j, 0 <= mget votes i j) -> 0 <= n ->
   incl (districts votes) dorder ->
-  evaluate_total d q votes n dorder fuel = BP_ok res rho gamma ->
+  evaluate_total d q votes true n dorder fuel = BP_ok res rho gamma ->
   exists pseats dseats, ha_marginal d (party_totals votes) n = Some pseats /\
     ha_marginal d (district_totals votes) n = Some dseats /\
     cert_ok d (districts votes) (parties votes) votes dseats pseats res (scale_k k rho) gamma = true /\
     biprop_spec d (districts votes) (parties votes) votes dseats pseats res.
 Proof.
-  intros d q k votes n dorder fuel res rho gamma Hq0 Hq1 Hk Hd Hwf Hv Hs Hn Hdo H.
-  destruct (evaluate_total_partial d q k Hq0 Hq1 Hk Hd votes Hwf Hv Hs n Hn dorder Hdo fuel res rho gamma H) as (pseats & dseats & Hp & Hds & Hc).
+  intros d q k votes n dorder fuel res rho gamma Hq0 Hq1 Hk Hd Hwf Hv Hn Hdo H.
+  destruct (evaluate_total_partial d q k Hq0 Hq1 Hk Hd votes Hwf Hv n Hn dorder Hdo true fuel res rho gamma (or_introl eq_refl) H) as (pseats & dseats & Hp & Hds & Hc).
   exists pseats, dseats. split; [exact Hp|]. split; [exact Hds|]. split; [exact Hc|]. exact (proj2 (C07_cert_sound _ _ _ _ _ _ _ _ _ Hc)).
+Qed.
+
+(* 5'. the pinned tree ([strict] = false: no test for an empty election) satisfies the same under the old hypothesis that
+       some vote is positive; C07_all_zero_refuted below shows that it needs it *)
+Theorem C07_evaluate_pinned_partial_correct : forall d q k votes n tgt dorder fuel res rho gamma,
+  (0 <= q)%Q -> (q < 1)%Q -> (0 < k)%Q -> (forall z, d z == k * (inject_Z z + 1 - q))%Q ->
+  wf_votes votes -> (forall i j, 0 <= mget votes i j) -> (exists i j, 0 < mget votes i j) -> 0 <= n ->
+  incl (districts votes) dorder ->
+  evaluate_core d q votes tgt dorder false n fuel = BP_ok res rho gamma ->
+  exists pseats, ha_marginal d (party_totals votes) n = Some pseats /\
+    cert_ok d (districts votes) (parties votes) votes tgt pseats res (scale_k k rho) gamma = true.
+Proof.
+  intros d q k votes n tgt dorder fuel res rho gamma Hq0 Hq1 Hk Hd Hwf Hv Hs Hn Hdo H.
+  exact (evaluate_core_partial d q k Hq0 Hq1 Hk Hd votes Hwf Hv n Hn dorder Hdo false tgt fuel res rho gamma (or_intror Hs) H).
+Qed.
+
+(* 5''. the refusal that opens evaluate is exactly "no vote is cast" and it is justified: then no seat matrix has the party
+        marginal and empty cells where there are no votes, whatever the district seats (the property's "refuses only when
+        no seat matrix with those marginals and zero cells exists") *)
+Theorem C07_no_votes_refusal : forall d q votes tgt dorder n fuel,
+  (evaluate_core d q votes tgt dorder true n fuel = BP_no_votes <-> has_votes votes = false) /\
+  (evaluate_total d q votes true n dorder fuel = BP_no_votes <-> has_votes votes = false) /\
+  (wf_votes votes -> (has_votes votes = false <-> forall i j, mget votes i j = 0)).
+Proof.
+  intros d q votes tgt dorder n fuel. split; [apply evaluate_core_no_votes|]. split; [apply evaluate_total_no_votes|].
+  intros Hwf. split; [apply has_votes_false|]. intros Hz. destruct (has_votes votes) eqn:E; [|reflexivity].
+  destruct (has_votes_true votes Hwf E) as (i & j & H). exfalso. apply H, Hz.
+Qed.
+Theorem C07_no_votes_refusal_justified : forall d q k votes n pseats,
+  (0 <= q)%Q -> (q < 1)%Q -> (0 < k)%Q -> (forall z, d z == k * (inject_Z z + 1 - q))%Q ->
+  (forall i j, 0 <= mget votes i j) -> 0 <= n ->
+  has_votes votes = false -> ha_marginal d (party_totals votes) n = Some pseats ->
+  forall dseats res, ~ biprop_spec d (districts votes) (parties votes) votes dseats pseats res.
+Proof.
+  intros d q k votes n pseats Hq0 Hq1 Hk Hd Hv Hn. exact (no_votes_infeasible d q k Hq1 Hk Hd votes Hv n Hn pseats).
 Qed.
 
 (* 6. the two configurations the evaluator supports *)
 Theorem C07_d_hondt_partial_correct : forall votes n dorder fuel res rho gamma,
-  wf_votes votes -> (forall i j, 0 <= mget votes i j) -> (exists i j, 0 < mget votes i j) -> 0 <= n ->
+  wf_votes votes -> (forall i j, 0 <= mget votes i j) -> 0 <= n ->
   incl (districts votes) dorder ->
-  evaluate_total d_hondt 0 votes n dorder fuel = BP_ok res rho gamma ->
+  evaluate_total d_hondt 0 votes true n dorder fuel = BP_ok res rho gamma ->
   exists pseats dseats, ha_marginal d_hondt (party_totals votes) n = Some pseats /\
     ha_marginal d_hondt (district_totals votes) n = Some dseats /\
     cert_ok d_hondt (districts votes) (parties votes) votes dseats pseats res (scale_k 1 rho) gamma = true /\
@@ -235,9 +272,9 @@ Proof.
     [apply Qle_refl|reflexivity|reflexivity|exact d_hondt_signposts].
 Qed.
 Theorem C07_sainte_lague_partial_correct : forall votes n dorder fuel res rho gamma,
-  wf_votes votes -> (forall i j, 0 <= mget votes i j) -> (exists i j, 0 < mget votes i j) -> 0 <= n ->
+  wf_votes votes -> (forall i j, 0 <= mget votes i j) -> 0 <= n ->
   incl (districts votes) dorder ->
-  evaluate_total sainte_lague (1 # 2) votes n dorder fuel = BP_ok res rho gamma ->
+  evaluate_total sainte_lague (1 # 2) votes true n dorder fuel = BP_ok res rho gamma ->
   exists pseats dseats, ha_marginal sainte_lague (party_totals votes) n = Some pseats /\
     ha_marginal sainte_lague (district_totals votes) n = Some dseats /\
     cert_ok sainte_lague (districts votes) (parties votes) votes dseats pseats res (scale_k 2 rho) gamma = true /\
@@ -259,26 +296,29 @@ Proof. intros q votes pseats tgt dorder s s' Hq1 Hwf Hdo. exact (bstep_progress 
 Definition C07_termination_full_statement : Prop := forall d q k votes n tgt dorder,
   (0 <= q)%Q -> (q < 1)%Q -> (0 < k)%Q -> (forall z, d z == k * (inject_Z z + 1 - q))%Q ->
   wf_votes votes -> (forall i j, 0 <= mget votes i j) -> NoDup dorder ->
-  exists fuel, evaluate_core d q votes tgt dorder n fuel <> BP_out_of_fuel.
+  exists fuel, evaluate_core d q votes tgt dorder true n fuel <> BP_out_of_fuel.
 
 (* 8. what the wire unit 105 runs (one pass that returns the trace and the outcome) IS the model of the theorems above *)
-Theorem C07_unit_runs_the_model : forall d q votes tgt dorder n fuel,
-  snd (run_core d q votes tgt dorder n fuel) = evaluate_core d q votes tgt dorder n fuel /\
-  snd (run_total d q votes n dorder fuel) = evaluate_total d q votes n dorder fuel /\
-  fst (run_core d q votes tgt dorder n fuel) =
+Theorem C07_unit_runs_the_model : forall d q votes tgt dorder strict n fuel,
+  snd (run_core d q votes tgt dorder strict n fuel) = evaluate_core d q votes tgt dorder strict n fuel /\
+  snd (run_total d q votes strict n dorder fuel) = evaluate_total d q votes strict n dorder fuel /\
+  fst (run_core d q votes tgt dorder strict n fuel) =
+    if refuses_empty votes strict then [] else
     match binit d q votes n with inr s => btrace q votes tgt dorder fuel s | inl _ => [] end.
 Proof.
-  intros d q votes tgt dorder n fuel. destruct (run_core_spec d q votes tgt dorder n fuel) as [H1 H2].
+  intros d q votes tgt dorder strict n fuel. destruct (run_core_spec d q votes tgt dorder strict n fuel) as [H1 H2].
   split; [exact H1|]. split; [apply run_total_spec|exact H2].
 Qed.
 
-(* the hypothesis "some vote is positive" cannot be dropped: on a matrix without a single vote the faithful model (like
-   the implementation: known finding C07-all-zero) returns a matrix with a seat in a cell without votes *)
+(* the PINNED tree ([strict] = false; finding C07-all-zero, repaired by fixes/C07-all-zero.diff): on a matrix without a single
+   vote it returned a matrix with a seat in a cell without votes - for it the hypothesis "some vote is positive" of
+   C07_evaluate_pinned_partial_correct cannot be dropped.  The code as it stands refuses that election. *)
 Definition zero_votes : mat := [(1%positive, [(1%positive, 0)]); (2%positive, [(1%positive, 0)])].
 Theorem C07_all_zero_refuted : exists votes tgt res rho gamma,
-  evaluate_core d_hondt 0 votes tgt [1%positive; 2%positive] 1 5 = BP_ok res rho gamma /\
+  evaluate_core d_hondt 0 votes tgt [1%positive; 2%positive] false 1 5 = BP_ok res rho gamma /\
   wf_votes votes /\ (forall i j, mget votes i j = 0) /\
-  entries_ok votes res = false.
+  entries_ok votes res = false /\
+  evaluate_core d_hondt 0 votes tgt [1%positive; 2%positive] true 1 5 = BP_no_votes.
 Proof.
   exists zero_votes, [(1%positive, 1)]. eexists. eexists. eexists.
   split; [vm_compute; reflexivity|]. split; [|split].
@@ -288,7 +328,7 @@ Proof.
     destruct (dget zero_votes i) as [r|] eqn:E; [|reflexivity].
     destruct (dget r j) as [z|] eqn:E2; [|reflexivity]. apply dget_In in E. apply dget_In in E2.
     destruct E as [E|[E|[]]]; injection E as <- <-; destruct E2 as [E2|[]]; injection E2 as <- <-; reflexivity.
-  - vm_compute. reflexivity.
+  - split; vm_compute; reflexivity.
 Qed.
 
 (* ---- non-vacuity ---- *)
@@ -315,9 +355,9 @@ Proof. vm_compute. reflexivity. Qed.
    after one seat transfer (D'Hondt, 5 seats) *)
 Example C07_example_hypotheses :
   wf_votes ex_votes /\ (forall i j, 0 <= mget ex_votes i j) /\ (exists i j, 0 < mget ex_votes i j) /\
-  incl (districts ex_votes) [1%positive; 2%positive].
+  incl (districts ex_votes) [1%positive; 2%positive] /\ has_votes ex_votes = true.
 Proof.
-  split; [|split; [|split]].
+  split; [|split; [|split; [|split; [|reflexivity]]]].
   - split; [repeat constructor; simpl; intuition discriminate|].
     intros row [<-|[<-|[]]]; simpl; repeat constructor; simpl; intuition discriminate.
   - intros i j. unfold mget, dget_or.
@@ -328,13 +368,19 @@ Proof.
   - intros x H. exact H.
 Qed.
 Example C07_example_whole_loop :
-  evaluate_total d_hondt 0 ex_votes 5 [1%positive; 2%positive] 10
+  evaluate_total d_hondt 0 ex_votes true 5 [1%positive; 2%positive] 10
   = BP_ok [(1%positive, [(2%positive, 2)]); (2%positive, [(1%positive, 3)])]
           [(1%positive, 1); (2%positive, 1)]%Q [(1%positive, 1 # 10); (2%positive, 1 # 8)]%Q /\
   length (btrace 0 ex_votes [(2%positive, 3); (1%positive, 2)] [1%positive; 2%positive] 10
             (mk_bstate [(1%positive, [(1%positive, 1); (2%positive, 2)]); (2%positive, [(1%positive, 2)])]
                        [(1%positive, 1); (2%positive, 1)]%Q [(1%positive, 1 # 10); (2%positive, 1 # 8)]%Q)) = 2%nat.
 Proof. vm_compute. split; reflexivity. Qed.
+
+(* the refusal theorems are not vacuous: a matrix without votes whose party marginal is tie-free, refused by the model *)
+Example C07_example_no_votes :
+  has_votes zero_votes = false /\ ha_marginal d_hondt (party_totals zero_votes) 1 = Some [(1%positive, 1)] /\
+  evaluate_total d_hondt 0 zero_votes true 1 [1%positive; 2%positive] 5 = BP_no_votes.
+Proof. vm_compute. repeat split. Qed.
 
 Print Assumptions C07_cert_sound.
 Print Assumptions C07_cert_complete.
@@ -358,6 +404,9 @@ Print Assumptions C07_loop_partial_correct.
 Print Assumptions C07_initial_state_invariant.
 Print Assumptions C07_evaluate_partial_correct.
 Print Assumptions C07_evaluate_total_partial_correct.
+Print Assumptions C07_evaluate_pinned_partial_correct.
+Print Assumptions C07_no_votes_refusal.
+Print Assumptions C07_no_votes_refusal_justified.
 Print Assumptions C07_d_hondt_partial_correct.
 Print Assumptions C07_sainte_lague_partial_correct.
 Print Assumptions C07_all_zero_refuted.
